@@ -336,42 +336,42 @@ def run(ctx, only=None):
         ctx.violation("build-failed", {"kind": "build", "error": str(e)}, found=False, what="tree does not build")
         return ctx.finish("proof", {"evaluations": 0, "distinct_nontrivial": 0})
     # (A) regenerate ------------------------------------------------------------------------------------------
-    cs = None
+    gcerts = None
     try:
         g = cgm.extract(ctx.build)
         # (A1) guards are PROPOSED by source idiom and must be borne out by a control-flow certificate from the IR
         # (tools/gen/cgguard.py -> Gen/DepthGuard.lean, obligations cg_guards_certified / cg_exemptions_certified); a
         # proposal without certificate is withdrawn (it may still be a written exemption, else its cycle is unguarded)
         try:
-            cs = cgg.extract(ctx.build, g)
-            deny = sorted(n for n, _ in cs.uncertified if n not in cgg.CHECKERS and not (cs.ir_proposed and n.startswith("janet_continue")))
-            if deny or cs.ir_proposed:
-                for nm, why in cs.uncertified:
+            gcerts = cgg.extract(ctx.build, g)
+            deny = sorted(n for n, _ in gcerts.uncertified if n not in cgg.CHECKERS and not (gcerts.ir_proposed and n.startswith("janet_continue")))
+            if deny or gcerts.ir_proposed:
+                for nm, why in gcerts.uncertified:
                     ctx.say("guard idiom matched in %s but the IR has no depth test dominating its recursive calls: %s" % (nm, why[:300]))
-                for nm, tag in sorted(cs.ir_proposed.items()):
+                for nm, tag in sorted(gcerts.ir_proposed.items()):
                     ctx.say("guard recognised from the IR alone (no source idiom matched): %s as %s" % (nm, tag))
-                acc = dict(cs.ir_proposed)
+                acc = dict(gcerts.ir_proposed)
                 g = cgm.extract(ctx.build, deny=deny, accept=acc)
-                cs = cgg.extract(ctx.build, g)
-                deny2 = sorted(n for n, _ in cs.uncertified if n not in cgg.CHECKERS and n not in deny)
+                gcerts = cgg.extract(ctx.build, g)
+                deny2 = sorted(n for n, _ in gcerts.uncertified if n not in cgg.CHECKERS and n not in deny)
                 if deny2:
                     deny = sorted(set(deny) | set(deny2))
                     g = cgm.extract(ctx.build, deny=deny, accept=acc)
-                    cs = cgg.extract(ctx.build, g)
+                    gcerts = cgg.extract(ctx.build, g)
                 for nm in deny:
                     ctx.say("  -> %s: %s" % (nm, "covered by the written exemption (" + g.bounded[nm][:80] + "...)" if nm in g.bounded else "NOT a guard any more"))
-            for nm, why in cs.uncertified:
+            for nm, why in gcerts.uncertified:
                 broken.append("no guard certificate for %s: %s [theorem cg_guards_certified]" % (nm, why[:300]))
                 ctx.broken.append(broken[-1])
                 ctx.say(broken[-1])
-            for e in cs.exempt:
+            for e in gcerts.exempt:
                 for f in e["fails"]:
                     broken.append("exemption %s no longer borne out by the IR: %s [theorem cg_exemptions_certified]" % (e["name"], f[:300]))
                     ctx.broken.append(broken[-1])
                     ctx.say(broken[-1])
-            ctx.gen("DepthGuard.lean", cgg.render(cs, g))
+            ctx.gen("DepthGuard.lean", cgg.render(gcerts, g))
             # (A1b) counter balance on the IR: net charges per block + level labels -> Gen/DepthBalance.lean (cg_counters_balanced_ir)
-            bals, bskip = cgg.balance_certs(ctx.build, g, cs)
+            bals, bskip = cgg.balance_certs(ctx.build, g, gcerts)
             ctx.gen("DepthBalance.lean", cgg.render_balance(bals))
             for nm, why in bskip:
                 broken.append("no IR balance certificate for %s: %s [theorem cg_counters_balanced_ir]" % (nm, why[:200]))
@@ -388,10 +388,10 @@ def run(ctx, only=None):
                         ("recursive call in block %d is made without a charge" % low[0][0]) if low else "block %d is reached after more releases than charges" % neg[0]))
                     ctx.broken.append(broken[-1])
                     ctx.say(broken[-1])
-            cs.balance = bals
+            gcerts.balance = bals
             ctx.say("guard certificates: %d functions certified on the IR CFG (%d blocks, %d edges, %d checks, %d recursive-call blocks), "
-                    "withdrawn: %s" % (len(cs.certs), sum(c["n"] for c in cs.certs), sum(len(c["cfg"]) for c in cs.certs),
-                                       sum(len(c["checks"]) for c in cs.certs), sum(len(c["targets"]) for c in cs.certs), g.denied))
+                    "withdrawn: %s" % (len(gcerts.certs), sum(c["n"] for c in gcerts.certs), sum(len(c["cfg"]) for c in gcerts.certs),
+                                       sum(len(c["checks"]) for c in gcerts.certs), sum(len(c["targets"]) for c in gcerts.certs), g.denied))
         except ExtractError as e:
             broken.append("translator tools/gen/cgguard.py: %s" % e)
             ctx.broken.append(broken[-1])
@@ -577,8 +577,8 @@ def run(ctx, only=None):
     if g and g.bad:
         covered = set()
         for cyc in g.bad:
-            cs = consumers_for([cyc])
-            if any(c in by_consumer for c in cs):
+            cyc_consumers = consumers_for([cyc])
+            if any(c in by_consumer for c in cyc_consumers):
                 covered.add(tuple(cyc))
         for cyc in g.bad:
             if tuple(cyc) not in covered:
@@ -620,16 +620,16 @@ def run(ctx, only=None):
                                              "max_head": st.max_head, "inlined_everywhere": len(st.inlined), "dynamic_unbounded": st.unbounded,
                                              "reentry_sites": st.sites + [("gc->funcdef", "janet_mark_funcdef", st.funcdef_charged)],
                                              "variants": list(csm.SU_VARIANTS), "unrolled": st.unrolled, "pure_checkers": st.demoted},
-        "guard_certificates": None if not cs else {
+        "guard_certificates": None if not gcerts else {
             "certified": [{"fn": c["fn"], "kind": c["kind"], "counter": c["counter"], "charge": c["charge"], "compare": "%s %d" % (c["pred"], c["k"]),
                            "blocks": c["n"], "edges": len(c["cfg"]), "checks": len(c["checks"]), "recursive_call_blocks": len(c["targets"]),
-                           "inits": c["inits"], "stops": c["stopcallees"]} for c in cs.certs],
+                           "inits": c["inits"], "stops": c["stopcallees"]} for c in gcerts.certs],
             "ir_counter_balance": [{"fn": b["fn"], "counter": b["counter"], "blocks": b["n"], "recursive_calls": len(b["calls"]),
                                     "charge_keeping_exits": sum(1 for (x, y) in b["cfg"] if y in b["rets"] and (b["live"] >> x) & 1 and not (b["stops"] >> x) & 1
                                                                 and b["level"][y] < b["level"][x] + b["delta"][x]),
-                                    "restores_saved_copy_in_blocks": b["restores"]} for b in getattr(cs, "balance", [])],
-            "idiom_matched_but_not_certified": g.denied, "never_returning_without_attribute": [c["fn"] for c in cs.noreturn_used],
-            "exemptions": [{"name": e["name"], "callers": e.get("callers"), "writers": e.get("writers"), "certs": [c["fn"] for c in e["certs"]], "fails": e["fails"]} for e in cs.exempt]},
+                                    "restores_saved_copy_in_blocks": b["restores"]} for b in getattr(gcerts, "balance", [])],
+            "idiom_matched_but_not_certified": g.denied, "never_returning_without_attribute": [c["fn"] for c in gcerts.noreturn_used],
+            "exemptions": [{"name": e["name"], "callers": e.get("callers"), "writers": e.get("writers"), "certs": [c["fn"] for c in e["certs"]], "fails": e["fails"]} for e in gcerts.exempt]},
         "counter_balance": None if not g else {"path_classes": len(g.balance), "unbalanced": g.unbalanced,
                                                "functions": sorted(set(pth[1] for pth in g.balance))},
         "depth_argument_charging": None if not g else {"functions": g.deptharg["fns"], "non_charging_edges": g.deptharg["zero"],
